@@ -279,6 +279,69 @@ def hist_job(args: tuple[int, int, int]) -> dict[str, Any]:
     return out
 
 
+def bad_payload_states_job(noise: bool) -> dict[str, Any]:
+    """'An undecodable payload of a known type closes the connection with a protocol error' - in every state a session can be in,
+    including a graceful disconnect that is pending or has already given up waiting for the connect phase."""
+    env.load()
+    from aioesphomeapi.core import ProtocolAPIError
+
+    out: dict[str, Any] = {"evals": 0, "viol": []}
+    bad_id = msg_id("SensorStateResponse")
+    for state in ("connected", "disconnect-pending", "finish-pending", "finish-pending+disconnect", "finish-pending+disconnect-gave-up"):
+        for lead in ("", "hello", "state"):
+            if lead == "hello" and not state.startswith("finish-pending"):
+                continue
+            if lead == "state" and state.startswith("finish-pending"):
+                continue
+            w = ConnWorld(noise=noise, login=True, keepalive=1e6)
+            try:
+                w.do_start()
+                w.do_tcp_ok()
+                w.do_finish_call()
+                w.do_handshake()
+                if not state.startswith("finish-pending"):
+                    w.do_hello()
+                if "disconnect" in state:
+                    w.spawn("disc", w.conn.disconnect)
+                    w.drain()
+                if state.endswith("gave-up"):
+                    w.advance_next_timer()  # disconnect() stops waiting for the connect phase (5 s) and asks the device to disconnect
+                    w.drain()
+                    if w.conn.connection_state.name == "CLOSED":
+                        continue
+                fatal: list[Any] = []
+                orig = w.conn.report_fatal_error
+
+                def spy(err: Any, _o: Any = orig, _f: list[Any] = fatal) -> None:
+                    _f.append(err)
+                    _o(err)
+
+                try:
+                    w.conn.report_fatal_error = spy  # type: ignore[method-assign]
+                except AttributeError:
+                    pass
+                data = b""
+                if lead == "hello":
+                    data += w.dframe(w.hello_resp()) + w.dframe(w.connect_resp())
+                elif lead == "state":
+                    data += w.dframe(mk("SensorStateResponse", key=1, state=1.0))
+                data += raw_frame(w, bad_id, b"\xff\xff\xff")
+                w.io_chunk(w.sock, data)
+                w.drain()
+                out["evals"] += 1
+                key = f"bad-payload:{'noise' if noise else 'plain'}:{state}:{lead or 'alone'}"
+                d = {"noise": noise, "state": state, "lead": lead}
+                if w.conn.connection_state.name != "CLOSED":
+                    out["viol"].append({"key": key, "clause": f"C12:bad-payload:an undecodable SensorStateResponse arrived in state '{state}' (after: {lead or 'nothing'}) "
+                                        f"but the connection reads {w.conn.connection_state.name}, finish={w.outcome('finish')}", **d})
+                elif fatal and not any(isinstance(e, ProtocolAPIError) for e in fatal[:1]) and not state.endswith("gave-up"):
+                    out["viol"].append({"key": key + ":class", "clause": f"C12:bad-payload:closed, but the fatal error reported first is {type(fatal[0]).__name__}, "
+                                        "not a protocol error", **d})
+            finally:
+                w.close()
+    return out
+
+
 def fresh_hist_job(args: tuple[int, int, int]) -> dict[str, Any]:
     """Short histories on a *fresh* connection each (the first registration of a type creates state a reused connection never shows again)."""
     env.load()
@@ -464,7 +527,8 @@ def run(tier: str, seed: int) -> Result:
         rb2 = pool.map_async(fresh_hist_job, jobs_b2, chunksize=1)
         rc = pool.map_async(peer_job, jobs_c, chunksize=16)
         rc2 = pool.map_async(peer_connect_job, jobs_c2, chunksize=4)
-        outs_a, outs_b, outs_c = ra.get(), rb.get() + rb2.get(), rc.get() + rc2.get()
+        rc3 = pool.map_async(bad_payload_states_job, [False, True], chunksize=1)
+        outs_a, outs_b, outs_c = ra.get(), rb.get() + rb2.get(), rc.get() + rc2.get() + rc3.get()
     # large varints (plaintext only: the Noise type field is 16 bit)
     big_evals = 0
     w, probe = connected(False)
